@@ -60,6 +60,8 @@ func (t *target) Send(ctx context.Context, s capnp.Send) (*capnp.Answer, capnp.R
 }
 func (t *target) Recv(ctx context.Context, r capnp.Recv) capnp.PipelineCaller {
 	t.w.log("pipe-delivered", int(r.Args.Uint32(0)), 0, "")
+	// the target takes a moment: a call that is let through too early shows up between the queued ones
+	time.Sleep(250 * time.Microsecond)
 	r.ReleaseArgs()
 	r.Returner.Return(nil)
 	return nil
